@@ -671,3 +671,130 @@ func genDRAOps(r *vh.Rng) []int64 {
 	in = append(in, 1)
 	return append(in, side(b)...)
 }
+
+// ---- clones share no storage: clone, mutate the clone, observe the source (selector 15, law 118) ----
+
+type capB struct {
+	dim, milli int64
+	dec        bool // the Quantity is backed by an *inf.Dec (a struct copy shares it)
+}
+
+func parseDRAB(r *tokReader) (int64, []capB) {
+	count := r.next()
+	n := int(r.next())
+	caps := []capB{}
+	for i := 0; i < n; i++ {
+		caps = append(caps, capB{r.next(), r.next(), r.next() != 0})
+	}
+	return count, caps
+}
+
+func buildDRAB(count int64, caps []capB) *api.DRAResource {
+	d := &api.DRAResource{Count: count}
+	if len(caps) > 0 {
+		d.Capacity = map[string]resource.Quantity{}
+		for _, c := range caps {
+			if _, dup := d.Capacity[dimName(c.dim)]; dup {
+				continue
+			}
+			q := *resource.NewMilliQuantity(c.milli, resource.DecimalSI)
+			if c.dec {
+				q.AsDec() // switches q to its big-decimal representation, as parsing "1.5Gi" does
+			}
+			d.Capacity[dimName(c.dim)] = q
+		}
+	}
+	return d
+}
+
+// cloneMutate returns the source as observed before, after clone.Add(o), after clone.Sub(o), after adding o to
+// the request of a TaskInfo.Clone() snapshot, and the two mutated clones
+func cloneMutate(in []int64) (before, a1, a2, a3, added, subbed []int64) {
+	r := &tokReader{t: in}
+	dc, dcaps := parseDRAB(r)
+	oc, ocaps := parseDRAB(r)
+	d := buildDRAB(dc, dcaps)
+	o := buildDRAB(oc, ocaps)
+	before = encDRA(d)
+	c1 := d.Clone()
+	c1.Add(o)
+	a1 = encDRA(d)
+	c2 := d.Clone()
+	c2.Sub(o)
+	a2 = encDRA(d)
+	ti := &api.TaskInfo{UID: "t", Name: "t", Namespace: "ns", Resreq: api.EmptyResource(), InitResreq: api.EmptyResource(),
+		NumaInfo: &api.TopologyInfo{}, DRAResreq: map[string]*api.DRAResource{"class": d}}
+	snap := ti.Clone()
+	snap.DRAResreq["class"].Add(o)
+	a3 = encDRA(d)
+	return before, a1, a2, a3, encDRA(c1), encDRA(c2)
+}
+
+func runCloneMutate(in []int64) []int64 {
+	_, a1, a2, a3, added, subbed := cloneMutate(in)
+	out := append(tag(1), a1...)
+	out = append(append(out, tag(2)...), a2...)
+	out = append(append(out, tag(3)...), a3...)
+	out = append(append(out, tag(4)...), added...)
+	return append(append(out, tag(5)...), subbed...)
+}
+
+func lawsCloneMutate(in []int64, law func(lsel int, lin []int64, sig string)) {
+	before, a1, a2, a3, _, _ := cloneMutate(in)
+	r := &tokReader{t: in}
+	parseDRAB(r)
+	lin := append([]int64{}, in[:r.i]...) // the source d as given
+	lin = append(append(append(append(lin, before...), a1...), a2...), a3...)
+	law(118, lin, "")
+}
+
+func genCloneMutate(r *vh.Rng) []int64 {
+	side := func(forceDims []int64) ([]int64, []int64) {
+		dims := []int64{}
+		for _, k := range []int64{1, 2, 3} {
+			if r.Chance(1, 2) {
+				dims = append(dims, k)
+			}
+		}
+		for _, k := range forceDims { // share dimensions with the other side so that Add / Sub touch them
+			has := false
+			for _, x := range dims {
+				has = has || x == k
+			}
+			if !has && r.Chance(3, 4) {
+				dims = append(dims, k)
+			}
+		}
+		sort.Slice(dims, func(a, b int) bool { return dims[a] < dims[b] })
+		out := []int64{genCount(r), int64(len(dims))}
+		for _, k := range dims {
+			var m int64
+			switch r.Intn(4) {
+			case 0:
+				m = 1610612736000 // 1.5Gi
+			case 1:
+				m = int64(r.Range(1, 64)) << 30 * 1000
+			case 2:
+				m = int64(r.Range(1, 5000))
+			default:
+				m = int64(r.Range(1, 1<<28))
+			}
+			out = append(out, k, m, int64(r.Intn(2)))
+		}
+		return out, dims
+	}
+	d, dims := side(nil)
+	o, _ := side(dims)
+	return append(d, o...)
+}
+
+func directedCloneMutate() [][]int64 {
+	return [][]int64{
+		// 1.5Gi held as a big decimal, 1Gi added into the clone (the shape of a parsed "1.5Gi" request)
+		{2, 1, 1, 1610612736000, 1, 1, 1, 1, 1073741824000, 0},
+		{2, 1, 1, 1610612736000, 0, 1, 1, 1, 1073741824000, 0},
+		{2, 1, 1, 1610612736000, 1, 1, 1, 1, 1073741824000, 1},
+		{5, 2, 1, 2500, 1, 2, 68719476736000, 1, 3, 2, 1, 500, 1, 2, 1000, 0},
+		{1, 1, 2, 1000, 1, 0, 0},
+	}
+}
